@@ -1,3 +1,4 @@
+// serves: C02 C15
 // C02 / C15: the Elias-Fano sparse vector as a set (C02) and as a multiset (C15).
 // One module serves both: `run(.., multiset = false)` emits the set cases, `true` the multiset cases.
 use crate::common::*;
